@@ -74,6 +74,14 @@ func verifHosts(l *roundRobinLoadBalancer) []*Host { return l.hosts.Load().([]*H
 //@   ensures add-len: typeis(event, *AddEvent) ==> len(verifHosts(l)) == old(len(verifHosts(l))) + 1
 //@   ensures add-last: typeis(event, *AddEvent) ==> verifHosts(l)[len(verifHosts(l))-1] == old(as(event, *AddEvent).Host)
 //@   ensures remove-len: typeis(event, *RemoveEvent) ==> len(verifHosts(l)) == old(len(verifHosts(l))) || len(verifHosts(l)) == old(len(verifHosts(l))) - 1
+// "no removed host": the new list is the old one without its first entry for the removed host's key -
+// the entries before it and after it are kept, in order ($rmIdx: the index at which the new list was published)
+//@   local $rmFound bool = false
+//@   local $rmIdx int = 0
+//@   before atomic.Value.Store#* set $rmFound = true; $rmIdx = rangeindex
+//@   ensures remove-absent: typeis(event, *RemoveEvent) && !$rmFound ==> verifHosts(l) == old(verifHosts(l))
+//@   ensures remove-position: typeis(event, *RemoveEvent) && $rmFound ==> 0 <= $rmIdx && $rmIdx < old(len(verifHosts(l))) && len(verifHosts(l)) == old(len(verifHosts(l))) - 1
+//@   ensures remove-keeps-the-others: typeis(event, *RemoveEvent) && $rmFound ==> forall(k, 0, $rmIdx, verifHosts(l)[k] == old(verifHosts(l)[k])) && forall(k, $rmIdx, len(verifHosts(l)), verifHosts(l)[k] == old(verifHosts(l)[k+1]))
 //@   modifies l.hosts
 
 // Constructors used by proxy.Run (fresh objects; no effect on the caller's state).
